@@ -87,6 +87,26 @@ class VLoop(base_events.BaseEventLoop):
         self._ready.append(h)
         return h
 
+    def collect_due_timers(self, at=None):
+        """What BaseEventLoop._run_once does at the start of an iteration: (advance the clock to `at`,) move every
+        live scheduled handle with when < time() + clock_resolution to the ready queue, in deadline order.  Returns the
+        length of the ready queue = the number of handles that iteration runs."""
+        if at is not None:
+            h = self.next_timer()
+            if h is not None and at < h._when - self._clock_resolution:
+                raise ValueError('the real loop never dispatches a timer earlier than when - clock_resolution')
+            if at > self._vtime:
+                self._vtime = at
+        end = self._vtime + self._clock_resolution
+        while True:
+            h = self.next_timer()
+            if h is None or h._when >= end:
+                break
+            heapq.heappop(self._scheduled)
+            h._scheduled = False
+            self._ready.append(h)
+        return len(self._ready)
+
     def close(self):
         try:
             self._ready.clear()
